@@ -108,6 +108,24 @@ def observe(cmd, args):
         out = "".join("0" if r is None else "1" for r in rs)
         if mode == "o": out += "|" + "".join(r + "\n" for r in rs if r is not None)
         return out
+    if cmd == "l.evalsweep":
+        # the eval() component alone: replicate the first loop's two guards, then ask CPython
+        m, prefix = int(args[0]), args[1]
+        words = ["False", "or", "and", "(", ")"]
+        pre = [words[int(c)] for c in prefix]
+        bits = []
+        for n in range(m + 1):
+            for suf in itertools.product(words, repeat=n):
+                sk, ok = [], True
+                for t in pre + list(suf):
+                    if t == "(" and sk and sk[-1] not in ("or", "and", "("): ok = False; break
+                    if t == ")" and sk and sk[-1] == "(": ok = False; break
+                    sk.append(t)
+                if not ok: continue
+                try: invalid = eval(" ".join(sk), globals(), locals())
+                except Exception: invalid = True
+                bits.append("1" if invalid is False else "0")
+        return "%d:%s" % (len(bits), "".join(bits))
     if cmd == "law.l.spec":
         return check_against_spec(args[0])
     if cmd == "law.l.layout":
